@@ -361,6 +361,10 @@ def cases(tier, seed):
     for loc in LOCS:
         for eps in EPS_ARCMIN:
             yield "cli", dict(mask=511, loc=loc, eps=eps)
+    # the linking length as the priorized fitter applies it (explicit arcmin value, or the default 4 x mean major axis)
+    for eps in (1.0, 4.0, None):
+        for mask in ([511, 0b101101101, 0b000111010] if tier == "quick" else [511] + _masks(5)[::6] + _masks(3)[::5]):
+            yield "priorized", dict(mask=mask, eps=eps)
     # decisive links very close to the linking length (the regular lattice keeps every pair >= 1e-3 away from it)
     for eps in (1.0, 4.0):
         for delta in (1e-5, 1e-4):
@@ -611,7 +615,66 @@ def ev_resize(case, ctx):
         ctx.outcome("resize:%s:%s" % (tag, "+".join(sorted(reported)) if reported else ("ok" if nvalid else "nothing_to_judge")))
 
 
-CLAUSES = dict(dbscan=ev_dbscan, ellip=ev_ellip, cli=ev_cli, resize=ev_resize)
+def ev_priorized(case, ctx):
+    """priorized_fit_islands(doregroup=True, regroup_eps=X arcmin | None): the islands of the output are the eps-connected
+    groups of the input (X arcmin explicit, through the CLI too; None = 4 x the mean major axis)"""
+    from checks import scenes
+    from mc.oracles import skygauss
+    from mc.oracles import wcs_zenithal as wz
+    mask, eps = case["mask"], case["eps"]
+    size = 30.0                                     # arcsec; templates have a = 1.25 * size
+    eff = eps if eps is not None else 4 * 1.25 * size / 60.0        # arcmin
+    ra, dec, sep = _lattice("mid", eff, ctx.seed)
+    rows = _rows(mask, "distinct")
+    templates = _templates(rows, ra, dec, size)
+    for t in templates:
+        t.flags = 0
+    oracle, links, chain = _oracle_partition(rows, sep, eff / 60.0)
+    cd = 7.5 / 3600
+    npx = int(2 * 1.6 * eff * 60 / 7.5) + 40
+    c0 = (float(np.mean(ra)), float(np.mean(dec)))
+    hdr = wz.make_header("SIN", c0, cd, (npx, npx), beam=(size / 3600, 0.9 * size / 3600, 5.0))
+    srcs = [dict(ra=t.ra, dec=t.dec, peak=t.peak_flux, a=t.a / 3600, b=t.b / 3600, pa=t.pa) for t in templates]
+    d = os.environ["VERIF_SCRATCH"]
+    f = os.path.join(d, "c19p.fits")
+    scenes.write_image(f, hdr, skygauss.render(hdr, (npx, npx), srcs))
+    where = "priorized,eps=%s,mask=%d" % ("default" if eps is None else "%g'" % eps, mask)
+    desc = "priorized_fit_islands(regroup_eps=%r arcmin, doregroup=True) on %s" % (eps, _describe(rows, ra, dec))
+    n = len(rows)
+    try:
+        for order_name, order in (("given", list(range(n))), ("reversed", list(range(n))[::-1])):
+            ctx.count("priorized_runs")
+            sig = "|%s,order=%s" % (where, order_name)
+            cat = [copy.deepcopy(templates[i]) for i in order]
+            try:
+                out = scenes.finder().priorized_fit_islands(f, catalogue=cat, rms=0.01, bkg=0.0, stage=1, ratio=None, doregroup=True,
+                                                            regroup_eps=eps, cores=1)
+            except Exception as e:
+                ctx.violation("%s raised %r" % (desc, e), "priorized_raise" + sig)
+                ctx.outcome("priorized:raise")
+                continue
+            byisl = {}
+            for s_ in out:
+                byisl.setdefault(s_.island, set()).add(s_.uuid)
+            got = frozenset(frozenset(v) for v in byisl.values())
+            if set(u for g in got for u in g) != set(t.uuid for t in templates):
+                ctx.violation("%s: %d of %d input sources returned" % (desc, len(out), n), "priorized_lost" + sig)
+                ctx.outcome("priorized:lost")
+                continue
+            if n >= 2:
+                ctx.nontrivial(where + order_name)
+            if got != oracle:
+                ctx.violation("%s (%s order): islands %r, expected (union-find of separations <= %.4g arcmin) %r" % (
+                    desc, order_name, _fmt_part(got), eff, _fmt_part(oracle)), "priorized_connectivity" + sig)
+                ctx.outcome("priorized:wrong_groups")
+            else:
+                ctx.outcome("priorized:groups=%d/%d" % (len(got), n))
+    finally:
+        if os.path.exists(f):
+            os.remove(f)
+
+
+CLAUSES = dict(priorized=ev_priorized, dbscan=ev_dbscan, ellip=ev_ellip, cli=ev_cli, resize=ev_resize)
 
 
 def evaluate(clause, case, ctx):
